@@ -190,15 +190,18 @@ func capPreCount(swampObj swamp.Swamp, predicate func(treasureForCount) bool) (i
 	if verifhook.Enabled {
 		verifhook.Point("cap.pre", swampObj)
 	}
-	count := swampObj.CountMatchingTreasures(adapted)
-	if verifhook.Enabled {
-		verifhook.Point("cap.mid", swampObj)
-	}
 	// Cap-bearing patch flows serialise on swamp.capMu — but the swamp
 	// interface does not expose it directly. Acquire it via the
 	// public LockCapMu / UnlockCapMu accessors added on the swamp
 	// interface so the gateway can hold it for the whole batch.
+	// The lock is taken BEFORE counting: a count taken outside capMu can be
+	// stale by the time the batch runs, and two concurrent batches would both
+	// spend the same remaining budget.
 	swampObj.LockCapMu()
+	if verifhook.Enabled {
+		verifhook.Point("cap.mid", swampObj)
+	}
+	count := swampObj.CountMatchingTreasures(adapted)
 	return count, swampObj.UnlockCapMu
 }
 
